@@ -451,11 +451,11 @@ func (s prfSpec) build(variant string, id uint32) (*Info, error) {
 // AES-CTR-HMAC:  additionally HMAC hash SHA1/256/512 and tag 10..digest; segment >= derived+8+tag+1.
 
 type streamSpec struct {
-	ctr                    bool
-	keySize, derived       int
-	hkdfHash, hmacHash     hashSpec
-	tagSize, segmentSize   int
-	key                    []byte
+	ctr                  bool
+	keySize, derived     int
+	hkdfHash, hmacHash   hashSpec
+	tagSize, segmentSize int
+	key                  []byte
 }
 
 var streamHashes = []hashSpec{hashSHA1, hashSHA256, hashSHA512}
